@@ -182,7 +182,8 @@ def misc():
 def tasks(tier):
     return [('contracts.c11', 'appends', ()), ('contracts.c11', 'pops', ()), ('contracts.c11', 'misc', ()),
             ('contracts.c11', 'index_task', ()),
-            ('contracts.iteration', 'iterkeys_task', ('C11', False)), ('contracts.iteration', 'iterkeys_task', ('C11', True))]
+            ('contracts.iteration', 'iterkeys_task', ('C11', False)), ('contracts.iteration', 'iterkeys_task', ('C11', True)),
+            ('contracts.traces', 'transact_block', ('C11',))]     # append at maxlen = push + trim in one block
 
 
 def meta(results, tier):
